@@ -185,7 +185,52 @@ def ob_content_gates(run, oid):
 
 
 
+
+ERROR_MAP = {
+    "<" + A + "shredder::DeshredError as core::convert::From<" + A + "shredder::reed_solomon::ReedSolomonDeshredError>>::from":
+        {"InvalidPadding": "BadEncoding", "TooMuchData": "TooMuchData", "NotEnoughShreds": "NotEnoughShreds"},
+    "<" + A + "shredder::DeshredError as core::convert::From<" + A + "types::slice::SlicePayloadError>>::from":
+        {"BadEncoding": "BadEncoding", "TooLarge": "TooMuchData"},
+    "<" + A + "shredder::DeshredError as core::convert::From<" + A + "shredder::reed_solomon::ReedSolomonShredError>>::from":
+        {"*": "TooMuchData"},
+}
+
+
+def ob_error_mapping(run, oid):
+    """which decoder failure becomes which DeshredError: only 'not enough shreds yet' may become the error the blockstore waits on"""
+    from engine import paths as P_
+    prog = run.program("lib")
+    o = run.ob(oid, "conversions into DeshredError keep the meaning of each failure: NotEnoughShreds only from NotEnoughShreds, every reviewed variant to its reviewed counterpart",
+               "the blockstore answers NotEnoughShreds by waiting and every other decoding error by declaring the block invalid: a padding / size failure mapped to "
+               "NotEnoughShreds is waited on for ever, the reverse blames a correct leader for a slice that is merely incomplete", floor=5)
+    for fn, want in ERROR_MAP.items():
+        b = prog.body(fn)
+        if b is None:
+            o.missing(fn.replace(A, ""))
+            continue
+        got = {}
+        for atoms, ret, _bl in P_.decision_table(b, prog):
+            src = [sorted(a[1][1]) for a in atoms if a[0] == "variant" and a[2] is True]
+            r = K.peel(ret)
+            dst = r[2] if isinstance(r, tuple) and r and r[0] == "agg" else "?"
+            for v in (src[0] if src else ["*"]):
+                got.setdefault(v, set()).add(dst)
+        short = fn.replace(A, "").split(" as ")[1].split("<")[1].split(">")[0].rsplit("::", 1)[-1]
+        for v, dsts in sorted(got.items()):
+            w = want.get(v, want.get("*"))
+            if w is not None:
+                o.check(dsts == {w}, "%s|%s" % (short, v), "%s::%s becomes DeshredError::%s" % (short, v, w), b.span, {"now": sorted(dsts)})
+            else:
+                # a variant that did not exist on the reviewed tree: anything but the 'wait' verdict
+                o.check("NotEnoughShreds" not in dsts and "?" not in dsts, "%s|%s|new-variant" % (short, v), "a new failure kind is not answered by waiting", b.span, {"now": sorted(dsts)})
+        for v in want:
+            if v != "*" and v not in got and "*" not in got:
+                o.fail("%s|%s|anchor-missing" % (short, v), "reviewed variant %s::%s is not mapped any more (rule cannot be evaluated; failing closed)" % (short, v), b.span)
+    return o
+
+
 def check(run):
+    ob_error_mapping(run, "O13.11")
     from . import detectors as _DL
     _DL.ob_loop_exits(run, "O13.9", ['consensus::blockstore'], 'every slice of a block is reconstructed and checked: a loop that stops early assembles a partial block')
     # "can afterwards serve every shred, slice root and proof of it": the lookup behind all getters
